@@ -213,6 +213,7 @@ struct ThetaObj : Obj {
   }
   // legacy images written from the documented layout: kind 1 = serial version 1, kind 2 = serial version 2
   bool legacy(int kind, Bytes& out) override {
+    if (!sk.is_ordered()) return false;   // versions 1 and 2 are always ordered: the content is comparable only for ordered sketches
     std::vector<uint64_t> e; for (auto it = sk.begin(); it != sk.end(); ++it) e.push_back(*it);
     std::sort(e.begin(), e.end());   // versions 1 and 2 are always ordered
     uint64_t theta = sk.get_theta64(); uint32_t n = (uint32_t)e.size(); uint16_t sh = sk.get_seed_hash();
@@ -534,7 +535,16 @@ struct QObj : Obj {
   long max_size() override { return q_max(sk, sd); }
   Obj* de(const void* p, size_t n) override { return new QObj(Sk::deserialize(p, n, sd)); }
   Obj* de(std::istream& is) override { return new QObj(Sk::deserialize(is, sd)); }
+  bool cont_exact() override { return q_kind(sk) != 1; }   // req_compactor's deserializing constructor draws a fresh coin
   void observe(Line& l, int mode) override {
+    if (mode == 3) {
+      l.push_back(sk.get_k()); l.push_back((I)sk.get_n()); l.push_back(sk.is_empty()); l.push_back(q_extra(sk));
+      if (sk.is_empty()) return;
+      Item<T>::enc(l, sk.get_min_item()); Item<T>::enc(l, sk.get_max_item());
+      uint64_t w = 0; for (auto it = sk.begin(); it != sk.end(); ++it) w += (*it).second;
+      l.push_back((I)w);
+      return;
+    }
     l.push_back(sk.get_k()); l.push_back((I)sk.get_n()); l.push_back((I)sk.get_num_retained()); l.push_back(sk.is_empty()); l.push_back(sk.is_estimation_mode());
     l.push_back(q_extra(sk));
     if (sk.is_empty()) return;
@@ -757,10 +767,25 @@ struct VouObj : Obj {
   Obj* de(const void* p, size_t n) override { return new VouObj(u_t::deserialize(p, n)); }
   Obj* de(std::istream& is) override { return new VouObj(u_t::deserialize(is)); }
   void observe(Line& l, int mode) override {
-    var_opt_sketch<int64_t> r = u.get_result();
-    l.push_back((I)r.get_k()); l.push_back((I)r.get_n()); l.push_back((I)r.get_num_samples()); l.push_back(r.is_empty());
-    varopt_rows(r, l);
-    if (mode <= 1) { l.push_back((I)u.n_); l.push_back((I)u.max_k_); l.push_back(vh::dbits(u.outer_tau_numer_)); l.push_back((I)u.outer_tau_denom_); l.push_back((I)u.gadget_.h_); l.push_back((I)u.gadget_.r_); }
+    // get_result() with marked items in the gadget runs decrease_k_by_1 -> swap_values, which swaps the never-written mark of the gap
+    // slot (an uninitialised bool: UBSan stops the process; reported to the VarOpt family, not a serialization matter), so the union is
+    // observed through the state that travels in the image; the result is taken only when there are no marks
+    const var_opt_sketch<int64_t>& g = u.gadget_;
+    if (mode <= 1) {
+      l.push_back((I)u.n_); l.push_back((I)u.max_k_); l.push_back(vh::dbits(u.outer_tau_numer_)); l.push_back((I)u.outer_tau_denom_);
+      l.push_back((I)g.k_); l.push_back((I)g.n_); l.push_back((I)g.h_); l.push_back((I)g.r_); l.push_back(vh::dbits(g.total_wt_r_)); l.push_back((I)g.num_marks_in_h_);
+      std::vector<Line> rows;
+      for (uint32_t i = 0; i < g.h_; ++i) { Line r; r.push_back((I)g.data_[i]); r.push_back(vh::dbits(g.weights_[i])); r.push_back(g.marks_ != nullptr && g.marks_[i]); rows.push_back(r); }
+      put_rows(l, rows, true);
+      rows.clear();
+      for (uint32_t i = g.h_ + 1; i < g.h_ + 1 + g.r_; ++i) { Line r; r.push_back((I)g.data_[i]); rows.push_back(r); }
+      put_rows(l, rows, true);
+    }
+    if (g.num_marks_in_h_ == 0) {
+      var_opt_sketch<int64_t> r = u.get_result();
+      l.push_back((I)r.get_k()); l.push_back((I)r.get_n()); l.push_back((I)r.get_num_samples()); l.push_back(r.is_empty());
+      varopt_rows(r, l);
+    }
   }
   bool cont(const Line& seg) override {
     var_opt_sketch<int64_t> s((uint32_t)std::max<int64_t>(1, (int64_t)arg(seg, 2, 8)));
@@ -869,22 +894,27 @@ struct TdObj : Obj {
     if (sk.is_empty()) return;
     l.push_back(FB<T>::bits(sk.get_min_value())); l.push_back(FB<T>::bits(sk.get_max_value()));
     if (mode <= 1) {
-      l.push_back((I)sk.centroids_.size());
+      // a single value is one logical state whether it sits in the buffer or in a centroid (the image has one form for it)
+      const bool single = sk.get_total_weight() == 1;
+      l.push_back(single ? 1 : (I)sk.centroids_.size());
       for (const auto& c : sk.centroids_) { l.push_back(FB<T>::bits(c.get_mean())); l.push_back((I)c.get_weight()); }
-      l.push_back((I)sk.buffer_.size());
-      for (T x : sk.buffer_) l.push_back(FB<T>::bits(x));
+      if (single && sk.centroids_.empty()) { l.push_back(FB<T>::bits(sk.buffer_[0])); l.push_back(1); }
+      l.push_back(single ? 0 : (I)sk.buffer_.size());
+      if (!single) for (T x : sk.buffer_) l.push_back(FB<T>::bits(x));
     }
     if (mode == 1) l.push_back(sk.reverse_merge_);
     if (mode >= 1) {
       static const double RK[5] = {0.0, 0.1, 0.5, 0.99, 1.0};
-      for (int i = 0; i < 5; ++i) l.push_back(FB<T>::bits(sk.get_quantile(RK[i])));
-      l.push_back(vh::dbits(sk.get_rank(sk.get_min_value()))); l.push_back(vh::dbits(sk.get_rank((T)((sk.get_min_value() + sk.get_max_value()) / 2))));
+      sk_t c(sk);   // queries compress the digest (a side effect): they are asked of a copy, the observation leaves the object alone
+      for (int i = 0; i < 5; ++i) l.push_back(FB<T>::bits(c.get_quantile(RK[i])));
+      l.push_back(vh::dbits(c.get_rank(c.get_min_value()))); l.push_back(vh::dbits(c.get_rank((T)((c.get_min_value() + c.get_max_value()) / 2))));
     }
   }
   bool cont(const Line& seg) override {
     int64_t n = (int64_t)arg(seg, 0, 50), base = (int64_t)arg(seg, 1, 7), un = (int64_t)arg(seg, 2, 0);
     for (int64_t i = 0; i < n; ++i) sk.update((T)Item<double>::of(pat(2, base, i, n)));
     if (un > 0) { sk_t o(sk.get_k()); for (int64_t i = 0; i < un; ++i) o.update((T)(0.5 * (double)i)); sk.merge(o); }
+    sk.compress();   // canonical form: buffered values and centroids of weight 1 are the same logical content
     return true;
   }
   // images in the two formats of the reference implementation (big endian), written from the description in
